@@ -324,7 +324,12 @@ def decide(pid, tier, seed, P, vres, kres, kmeta, vac, t0, evdir):
         elif h['status'] == 'FAILED':
             fcs = h.get('failed_checks', [])
             real = [f for f in fcs if 'unwinding assertion' not in (f.get('description') or '')]
-            if not real:
+            alldesc = '; '.join('%s @%s:%s' % (f['description'], os.path.basename(f.get('file') or '?'), f.get('line')) for f in fcs[:6])
+            kf0 = match_known(pid, 'kani/%s' % name, alldesc)
+            if kf0:
+                known.append((kf0, 'kani/%s' % name))
+                bounded.append({'harness': name, 'bound': h['label'], 'checks': n, 'known_finding': kf0.get('what'), 'clause': h['clause']})
+            elif not real:
                 undecided.append('kani/%s: only unwinding assertions failed (bound too small for this tree)' % name)
             else:
                 if complete:
